@@ -43,10 +43,13 @@ def run(ck, ctx):
                       "stamp (the open R13.1 finding: it does not merge), so a mutator of ReplicatedValue that changes the payload (e.g. DEL of "
                       "a hash tombstoning its fields) without copying the ticked clock into the outer stamp produces a delta that ties with "
                       "its predecessor and is dropped by compaction while recovery without compaction merges it in (shared with C08 R08.2)")
+    from . import c12 as _c12w
+    ck.rule("R13.13", _c12w.WRITER_TEXT + " (shared with C12 R12.8; compaction writes its output through the same writer)")
     for cfg in ctx.configs:
         prog = ctx.prog(cfg)
         ck.configs.append(cfg)
         ck.fn_count += len(prog.fns)
+        _c12w.writer_rule(ck, prog, cfg, "R13.13")
         from . import c08
         from .core import Alias
         c08._r082(Alias(ck, "R08.2", "R13.12"), prog, cfg)
